@@ -14,6 +14,9 @@ fn urls() -> Vec<(String, String, String)> {
             v.push((format!("{}://{}{}{}", scheme, h, port, p), format!("https://{}/", h), "script".to_string()));
         }
     }
+    for u in ["https://a.b/?u=https://a.b/", "https://a.b/a#https://a.b/a", "https://a.b/a?x=https://a.b/a", "http://a.b:8/?http://a.b:8/", "https://b.a/ab/https://b.a/ab"] {
+        v.push((u.to_string(), "https://a.b/".to_string(), "script".to_string()));
+    }
     v
 }
 
@@ -40,6 +43,29 @@ pub fn run(seed: u64, n: usize, out: &mut Out, tier: &str) {
     let us = urls();
     let reqs: Vec<Req> = us.iter().filter_map(|(u, s, t)| make_req(u, s, t)).collect();
     let dumps: Vec<String> = reqs.iter().map(|q| q.dump.clone()).collect();
+    // user information in front of the host is outside the reference's URL universe; what is checked on such
+    // URLs is that the host the patterns are anchored to is the host of the URL as written (it starts after the
+    // LAST `@` of the authority) and that `||host^` finds it
+    let mut with_userinfo: Vec<Req> = vec![];
+    for (ui, h, p) in [("u@", "a.b", "/a"), ("u:p@", "a.b", "/ab"), ("u:p@ss@", "a.b", "/a"), ("x.y@", "b.a", "/a.b"), ("u@x@y@", "a.a.b", "/b.a"), ("@", "a.b", "/a")] {
+        if let Some(q) = make_req(&format!("https://{}{}{}", ui, h, p), &format!("https://{}/", h), "script") {
+            let line = format!("||{}^", h);
+            if let Some(mut pr) = parse_all(&[line.clone()]).into_iter().next() {
+                if !pr.matches(&q.req) {
+                    out.fail("host-rule-misses-a-url-with-user-information", None, json!({"rule": line, "url": q.url, "hostname": q.req.hostname}));
+                }
+            }
+            with_userinfo.push(q);
+        }
+    }
+    for q in reqs.iter().chain(with_userinfo.iter()) {
+        let auth = q.url.split("://").nth(1).unwrap_or("").split('/').next().unwrap_or("");
+        let hostport = auth.rsplit('@').next().unwrap_or("");
+        let host = hostport.split(':').next().unwrap_or("");
+        if q.req.hostname != host {
+            out.fail("request-host-differs-from-the-url's-host", None, json!({"url": q.url, "hostname": q.req.hostname, "expected": host}));
+        }
+    }
     let maxlen = if tier == "quick" { 3 } else { 5 };
     let pats = patterns(maxlen);
     let mut r = Rng::new(seed);
@@ -59,6 +85,12 @@ pub fn run(seed: u64, n: usize, out: &mut Out, tier: &str) {
         }
     } else {
         out.add("exhaustive", 1);
+    }
+    // whole-URL patterns (both anchors), against URLs that start and end with the pattern text without being it
+    for u in ["https://a.b/", "https://a.b/a", "http://a.b:8/", "wss://a.b/a", "https://b.a/ab"] {
+        for (pre, post) in [("|", "|"), ("|", ""), ("", "|"), ("", "")] {
+            lines.push(format!("{}{}{}", pre, u, post));
+        }
     }
     // random beyond: richer alphabet
     let rich = ["a", "b", "ab", ".", "/", "*", "^", "-", "_", "?", "=", "&", ":", "%", "a.b", "b.a", "www.", "x", "8"];
